@@ -42,6 +42,31 @@ func init() {
 	}
 }
 
+// stack positions (0 = top) an opcode converts to an integer: Model/NeoExec.numericOperands
+func numericOperands(op byte) []int64 {
+	switch op {
+	case opXDROP, opXSWAP, opXTUCK, opPICK, opROLL, opLEFT, opRIGHT, opPACK, opNEWARRAY, opNEWSTRUCT, opDCALL, opPICKITEM, opREMOVE, opINC, opDEC:
+		return []int64{0}
+	case opSUBSTR, opADD, opSUB, opLT, opGT:
+		return []int64{0, 1}
+	case opSETITEM:
+		return []int64{1}
+	}
+	return nil
+}
+
+// a byte array longer than 33 bytes where an integer is expected: outside the model (Model/NeoExec.longNumeric)
+func longNumeric(e *vm.Executor, op byte) bool {
+	for _, i := range numericOperands(op) {
+		if v, err := e.EvalStack.Peek(i); err == nil && v.GetType() == vmt.ByteArrayType {
+			if b, _ := v.AsBytes(); len(b) > 33 {
+				return true
+			}
+		}
+	}
+	return false
+}
+
 type dumper struct {
 	ids map[unsafe.Pointer]int
 	sb  strings.Builder
@@ -178,6 +203,9 @@ func execX(fs, hexcode string) wres {
 		}
 		if steps >= xStepLimit {
 			return wres{Out: "steplimit", Kind: "X-steplimit", Key: key()}
+		}
+		if longNumeric(e, byte(op)) {
+			return wres{Out: "unmodelled", Kind: "X-unmodelled-longint", Key: ""}
 		}
 		if op == opEQUAL { // EQUAL on two structs is reflect.DeepEqual (Go library code): outside the model
 			a, e1 := e.EvalStack.Peek(0)
